@@ -15,6 +15,7 @@
 package ggql
 
 import (
+	"fmt"
 	"math"
 	"strconv"
 )
@@ -42,12 +43,7 @@ func (*floatScalar) CoerceIn(v interface{}) (interface{}, error) {
 	case nil:
 		// remains nil
 	case float64:
-		if -math.MaxFloat32 <= tv && tv <= math.MaxFloat32 {
-			v = float32(tv)
-		} else { // out of range, infinite or NaN
-			v = nil
-			err = newCoerceErr(tv, "Float")
-		}
+		v, err = floatFromFloat64(tv) // rejects out of range, infinite and NaN
 	case float32:
 		// ok as is
 	case int32:
@@ -61,6 +57,15 @@ func (*floatScalar) CoerceIn(v interface{}) (interface{}, error) {
 	return v, err
 }
 
+// floatFromFloat64 converts to the 32 bit GraphQL Float or fails if the value
+// is not a finite float32.
+func floatFromFloat64(f float64) (interface{}, error) {
+	if -math.MaxFloat32 <= f && f <= math.MaxFloat32 {
+		return float32(f), nil
+	}
+	return nil, fmt.Errorf("%w %g into a Float, out of range", ErrCoerce, f)
+}
+
 // CoerceOut coerces a result value into a type for the scalar.
 func (t *floatScalar) CoerceOut(v interface{}) (interface{}, error) {
 	var err error
@@ -68,9 +73,9 @@ func (t *floatScalar) CoerceOut(v interface{}) (interface{}, error) {
 	case nil:
 		// remains nil
 	case float32:
-		// ok as is
+		v, err = floatFromFloat64(float64(tv)) // rejects NaN and infinities
 	case float64:
-		v = float32(tv)
+		v, err = floatFromFloat64(tv)
 	case int:
 		v = float32(tv)
 	case int8:
@@ -94,7 +99,9 @@ func (t *floatScalar) CoerceOut(v interface{}) (interface{}, error) {
 	case string:
 		var f float64
 		if f, err = strconv.ParseFloat(tv, 64); err == nil {
-			v = float32(f)
+			v, err = floatFromFloat64(f)
+		} else {
+			v = nil
 		}
 	default:
 		v = nil
